@@ -105,7 +105,15 @@ func runExpired(t *testing.T, kind string) {
 	type pending struct {
 		name, user string
 		c          *cred
+		cv         *conversation // a long-lived stream opened (and served) while the session was valid
 	}
+	var longLived *rpc
+	for _, m := range us {
+		if m.key() == "ImmuService.streamExportTx" {
+			longLived = m
+		}
+	}
+	conv := conversations()["ImmuService.streamExportTx"]
 	var ps []pending
 	for _, user := range []string{sysUser, "uadm"} {
 		pass := userPw
@@ -116,7 +124,18 @@ func runExpired(t *testing.T, kind string) {
 		if err != nil {
 			t.Fatalf("INFRA: open session: %v", err)
 		}
-		ps = append(ps, pending{fmt.Sprintf("%s/session@%s[expired-%s]", user, dbA, kind), user, c})
+		p := pending{name: fmt.Sprintf("%s/session@%s[expired-%s]", user, dbA, kind), user: user, c: c}
+		if longLived != nil {
+			cv, err := x.openConversation(longLived, c)
+			if err != nil {
+				t.Fatalf("INFRA: open stream: %v", err)
+			}
+			if res := cv.exchange(&schema.ExportTxRequest{Tx: 1}, conv.complete); len(res.msgs) == 0 {
+				t.Fatalf("INFRA: %s is not served on a fresh stream with a valid session: %v", longLived.key(), res.err)
+			}
+			p.cv = cv
+		}
+		ps = append(ps, p)
 	}
 	for _, p := range ps {
 		var active []*cred
@@ -135,6 +154,21 @@ func runExpired(t *testing.T, kind string) {
 			return
 		}
 		t.Logf("%s dropped by the server after %v", p.name, waited)
+		if p.cv != nil {
+			// the stream that was opened and served before the expiry: the next request on it must be refused
+			res := p.cv.exchange(&schema.ExportTxRequest{Tx: 1}, conv.complete)
+			p.cv.close()
+			en := vk.NewEnum("TestExpired")
+			en.Descf("%s same-stream request after expiry %s", longLived.key(), p.name)
+			en.Label("same-stream-request-after-expiry")
+			if len(res.msgs) > 0 || res.err == nil {
+				en.Failf(t, map[string]any{"principal": p.name, "messages": len(res.msgs), "error": fmt.Sprint(res.err)},
+					"%s: a request on a stream opened before the session expired was served (%d message(s), err=%v) after the server had dropped session %s", longLived.key(), len(res.msgs), res.err, p.name)
+				return
+			}
+			en.NonTrivial()
+			en.Done()
+		}
 		e.addPrincipal(&principal{name: p.name, user: p.user, auth: "session", sel: dbA, state: "expired-" + kind, c: p.c, live: false, sys: p.user == sysUser})
 	}
 	if kind == "idle" {
